@@ -2,7 +2,7 @@
    violation.  Statements only; proofs are in Proofs/SchemaValProofs.v. *)
 From PyGql Require Import Schema.SchemaFull Schema.SchemaValidateModel Spec.SchemaValidSpec
   Proofs.SchemaValProofs Proofs.SchemaVerdictProofs Spec.SchemaReportSpec Proofs.SchemaReportProofs
-  Proofs.SchemaStructuralProofs.
+  Proofs.SchemaStructuralProofs Proofs.SchemaSoundProofs.
 From Coq Require Import Permutation.
 
 (* The covariance check used for interface implementations decides exactly
@@ -113,6 +113,18 @@ Theorem C13_structural_mode : forall s,
 Proof. exact structural_mode. Qed.
 Print Assumptions C13_structural_mode.
 
+(* Soundness of what is reported: every error comes from the root types, from
+   one type, or from the directives, and that part of the schema really violates
+   the Spec's rules for it ([roots_ok], [type_ok], [directives_ok] fail there) --
+   the validator never blames a part of the schema that is in order. *)
+Theorem C13_errors_sound : forall s e,
+  sigs_wf s -> types_wf s -> In e (validate_model s) ->
+  (In e (validate_roots s) /\ ~ roots_ok s)
+  \/ (exists t, In t (s_types s) /\ In e (validate_type s t) /\ ~ type_ok_with s (implementation_ok s) t)
+  \/ (In e (validate_directives (s_types s) (s_dirs s)) /\ ~ directives_ok s).
+Proof. exact errors_sound. Qed.
+Print Assumptions C13_errors_sound.
+
 (* non-vacuity *)
 Local Open Scope string_scope.
 Definition S (x : string) : str := str_of_string x.
@@ -186,4 +198,19 @@ Example C13_example_masking :
                       [] (Some (S "Q")) None None None in
   validate_model sch = [mkErr LDuplicateField [S "Q"; S "x"]]
   /\ validate_all sch = [mkErr LDuplicateField [S "Q"; S "x"]; mkErr LFieldNotOutput [S "Q"; S "x"]].
+Proof. vm_compute. split; reflexivity. Qed.
+
+(* The verdict and the error multiset do not depend on the order of the types
+   (C13_perm).  The order of the FIELDS of one type does not change the verdict
+   either, but it decides which of two same-named fields is the "duplicate":
+   the reported list differs (masking follows the declaration order). *)
+Example C13_example_field_order :
+  let f t := mkField (S "x") t [] None None in
+  let sch fs := mkSchema [ mkType (S "Int") false true BScalar;
+                           mkType (S "In") false false (BInput [mkInput (S "a") (TyNamed (S "Int")) None]);
+                           mkType (S "Q") false false (BObject [] fs None) ]
+                         [] (Some (S "Q")) None None None in
+  validate_model (sch [f (TyNamed (S "Int")); f (TyNamed (S "In"))]) = [mkErr LDuplicateField [S "Q"; S "x"]]
+  /\ validate_model (sch [f (TyNamed (S "In")); f (TyNamed (S "Int"))])
+     = [mkErr LFieldNotOutput [S "Q"; S "x"]; mkErr LDuplicateField [S "Q"; S "x"]].
 Proof. vm_compute. split; reflexivity. Qed.
